@@ -13,6 +13,10 @@ import (
 )
 
 func main() {
+	// go/packages looks "go" up in this process's PATH: pin the toolchain.
+	os.Setenv("PATH", "/opt/veriftools/go1.26.8/bin:"+os.Getenv("PATH"))
+	os.Setenv("GOTOOLCHAIN", "local")
+	os.Unsetenv("GOWORK")
 	if len(os.Args) > 1 && os.Args[1] == "selftest" {
 		os.Exit(selftestMain(os.Args[2:]))
 	}
